@@ -33,6 +33,7 @@ pub mod c22;
 pub mod c24;
 pub mod c25;
 pub mod c26;
+pub mod c27;
 pub mod c28;
 pub mod textcorpus;
 
